@@ -21,7 +21,7 @@ use std::time::{Duration, Instant};
 
 pub fn defs() -> Vec<ScenDef> {
     let d = |name, f, fire| ScenDef { name, f, fire, gate_sites: &[], pool_cap: None, only_sites: &[] };
-    vec![d("io", io as fn(&mut Exec) -> Res, false), d("tcp", tcp, false), d("dgram", dgram, false), d("iot", iot, false), d("iocan", iocan, true)]
+    vec![d("io", io as fn(&mut Exec) -> Res, false), d("tcp", tcp, false), d("dgram", dgram, false), d("iot", iot, false), d("iocan", iocan, true), d("unixsrv", unixsrv, false), d("iochurn", iochurn, false)]
 }
 
 type Grave = Arc<std::sync::Mutex<Vec<Box<dyn Any + Send>>>>;
@@ -47,6 +47,7 @@ fn io_verdict(x: &Exec, r: Res) -> Res {
     match r {
         Err(Fail::Stranded(msg)) => {
             let mut ready = vec![];
+            let mut non_io = false;
             for a in &x.actors {
                 if a.done.load(SeqCst) {
                     continue;
@@ -55,8 +56,9 @@ fn io_verdict(x: &Exec, r: Res) -> Res {
                     let want_in = matches!(op, "read" | "accept" | "recv" | "recv_from");
                     let want_out = matches!(op, "write" | "write_vectored" | "send");
                     if !want_in && !want_out {
-                        // not an I/O call: a plain stranded waiter
-                        return Err(Fail::Stranded(msg));
+                        // not an I/O call: a plain stranded waiter (which may only be waiting for a stuck I/O call)
+                        non_io = true;
+                        continue;
                     }
                     let r1 = kernel_ready(fd as i32, want_in);
                     std::thread::sleep(Duration::from_millis(100));
@@ -68,7 +70,9 @@ fn io_verdict(x: &Exec, r: Res) -> Res {
                     }
                 }
             }
-            if ready.is_empty() {
+            if ready.is_empty() && non_io {
+                Err(Fail::Stranded(msg))
+            } else if ready.is_empty() {
                 Err(Fail::Inconclusive(format!("transport stall: no suspended I/O call is ready in the kernel's view; {}", msg)))
             } else {
                 Err(Fail::Stranded(format!("missed readiness edge: {:?}; {}", ready, msg)))
@@ -843,6 +847,172 @@ fn iocan(x: &mut Exec) -> Res {
     grave.lock().unwrap().clear();
     if let Some(e) = err.lock().unwrap().take() {
         return viol(format!("bystander I/O disturbed by the cancel: {}", e));
+    }
+    Ok(())
+}
+
+// ------------------------------------------------------------------------------------ C17 unix listener shapes
+/// the shapes of may's own `os::unix::net` tests (accept in a coroutine, connect + try_clone + reads
+/// from a plain thread through the proxy coroutine), several sessions at once, with the event log
+/// showing which side made progress
+fn unixsrv(x: &mut Exec) -> Res {
+    use may::os::unix::net::UnixListener;
+    let sessions = x.rng.range(1, 6) as usize;
+    let err = Arc::new(std::sync::Mutex::new(None::<String>));
+    let grave: Grave = Default::default();
+    static SEQ: AtomicUsize = AtomicUsize::new(0);
+    for sidx in 0..sessions {
+        let path = format!("/tmp/mayverif-{}-{}.sock", std::process::id(), SEQ.fetch_add(1, SeqCst));
+        let _ = std::fs::remove_file(&path);
+        let listener = UnixListener::bind(&path).map_err(|e| Fail::Inconclusive(format!("bind: {}", e)))?;
+        let shape = x.rng.below(2);
+        let (srv_co, cli_co) = (x.rng.chance(3, 4), x.rng.chance(1, 3));
+        let (e1, g1) = (err.clone(), grave.clone());
+        let lfd = listener.as_raw_fd() as u64;
+        x.spawn(&format!("server{}", sidx), srv_co, move |a| {
+            a.call("accept", lfd);
+            let mut stream = match listener.accept() {
+                Ok((s, _)) => s,
+                Err(e) => {
+                    *e1.lock().unwrap() = Some(format!("accept error {:?}", e));
+                    return;
+                }
+            };
+            a.ret("accept", lfd, stream.as_raw_fd() as u64);
+            if shape == 0 {
+                let mut buf = [0u8; 5];
+                a.call("read", stream.as_raw_fd() as u64);
+                if stream.read_exact(&mut buf).is_err() || &buf != b"hello" {
+                    *e1.lock().unwrap() = Some("server read wrong data".into());
+                }
+                a.ret("read", 0, 0);
+                a.call("write", stream.as_raw_fd() as u64);
+                let _ = stream.write_all(b"world!");
+                a.ret("write", 0, 0);
+            } else {
+                a.call("write", stream.as_raw_fd() as u64);
+                let _ = stream.write_all(b"hello");
+                let _ = stream.write_all(b"world");
+                a.ret("write", 0, 0);
+            }
+            stream.shutdown(std::net::Shutdown::Write).ok();
+            g1.lock().unwrap().push(Box::new(stream));
+            g1.lock().unwrap().push(Box::new(listener));
+        });
+        let (e2, g2) = (err.clone(), grave.clone());
+        let p2 = path.clone();
+        let delay = x.rng.below(300);
+        x.spawn(&format!("client{}", sidx), cli_co, move |a| {
+            nap(delay);
+            a.call("connect", 0);
+            let mut stream = match UnixStream::connect(&p2) {
+                Ok(s) => s,
+                Err(e) => {
+                    *e2.lock().unwrap() = Some(format!("connect error {:?}", e));
+                    return;
+                }
+            };
+            a.ret("connect", 0, stream.as_raw_fd() as u64);
+            if shape == 0 {
+                a.call("write", stream.as_raw_fd() as u64);
+                let _ = stream.write_all(b"hello");
+                a.ret("write", 0, 0);
+                let mut buf = vec![];
+                a.call("read", stream.as_raw_fd() as u64);
+                let r = stream.read_to_end(&mut buf);
+                a.ret("read", 0, buf.len() as u64);
+                if r.is_err() || buf != b"world!" {
+                    *e2.lock().unwrap() = Some(format!("client read_to_end got {:?} {:?}", r.map_err(|e| e.kind()), buf));
+                }
+            } else {
+                let mut stream2 = stream.try_clone().unwrap();
+                let mut buf = [0u8; 5];
+                a.call("read", stream.as_raw_fd() as u64);
+                let r1 = stream.read_exact(&mut buf);
+                a.ret("read", 0, 5);
+                if r1.is_err() || &buf != b"hello" {
+                    *e2.lock().unwrap() = Some("client read 1 wrong".into());
+                }
+                a.call("read", stream2.as_raw_fd() as u64);
+                let r2 = stream2.read_exact(&mut buf);
+                a.ret("read", 0, 5);
+                if r2.is_err() || &buf != b"world" {
+                    *e2.lock().unwrap() = Some("client read 2 (try_clone'd handle) wrong".into());
+                }
+                g2.lock().unwrap().push(Box::new(stream2));
+            }
+            g2.lock().unwrap().push(Box::new(stream));
+            let _ = std::fs::remove_file(&p2);
+        });
+    }
+    x.desc = format!("unix listener sessions: {} (shapes of may's own net tests: accept in coroutine/thread, connect+try_clone+read from thread/coroutine)", sessions);
+    let r = x.wait_all();
+    io_verdict(x, r)?;
+    grave.lock().unwrap().clear();
+    if let Some(e) = err.lock().unwrap().take() {
+        return viol(format!("unix listener session: {}", e));
+    }
+    Ok(())
+}
+
+// ------------------------------------------------------------------------------------ C17 descriptor churn
+/// several sessions open, use and *close* sockets at the same time, so descriptor numbers are reused
+/// while other connections are being registered: a reader whose registration is lost stays suspended
+/// with its bytes in the kernel
+fn iochurn(x: &mut Exec) -> Res {
+    let sessions = x.rng.range(2, if x.thorough { 6 } else { 4 }) as usize;
+    let rounds = x.rng.range(2, if x.thorough { 12 } else { 5 }) as usize;
+    let err = Arc::new(std::sync::Mutex::new(None::<String>));
+    let mut desc = format!("descriptor churn: {} sessions x {} rounds (open pair, hand one end over, transfer, close both at once): ", sessions, rounds);
+    for sidx in 0..sessions {
+        let use_tcp = x.rng.chance(1, 4);
+        let (r_co, w_co) = (x.rng.chance(2, 3), x.rng.chance(2, 3));
+        let (tx, rx) = may::sync::mpsc::channel::<Stream>();
+        let (e1, e2) = (err.clone(), err.clone());
+        let (mut r1, mut r2) = (x.rng.fork(), x.rng.fork());
+        desc += &format!("[#{} {} r={} w={}] ", sidx, if use_tcp { "tcp" } else { "unix" }, if r_co { "co" } else { "th" }, if w_co { "co" } else { "th" });
+        x.spawn(&format!("reader{}", sidx), r_co, move |act| {
+            for round in 0..rounds {
+                let (mut a, b) = if use_tcp {
+                    match tcp_pair() {
+                        Ok((a, b)) => (Stream::Tcp(a), Stream::Tcp(b)),
+                        Err(_) => return,
+                    }
+                } else {
+                    match UnixStream::pair() {
+                        Ok((a, b)) => (Stream::Unix(a), Stream::Unix(b)),
+                        Err(_) => return,
+                    }
+                };
+                if tx.send(b).is_err() {
+                    return;
+                }
+                let total = 1 + (round * 37 + sidx * 11) % 300;
+                read_stream(act, &mut a, total, &mut r1, None, &e1);
+                // closed right here, while the other sessions keep opening sockets
+                drop(a);
+            }
+        });
+        x.spawn(&format!("writer{}", sidx), w_co, move |act| {
+            for round in 0..rounds {
+                act.call("chan_recv", 0);
+                let mut b = match rx.recv() {
+                    Ok(b) => b,
+                    Err(_) => return,
+                };
+                act.ret("chan_recv", 0, 0);
+                nap(r2.below(1500));
+                let total = 1 + (round * 37 + sidx * 11) % 300;
+                write_stream(act, &mut b, total, &mut r2, &e2);
+                drop(b);
+            }
+        });
+    }
+    x.desc = desc;
+    let r = x.wait_all();
+    io_verdict(x, r)?;
+    if let Some(e) = err.lock().unwrap().take() {
+        return viol(format!("stream I/O under descriptor churn: {}", e));
     }
     Ok(())
 }
